@@ -314,7 +314,9 @@ class SymStr:
                     if ctx().decide(c.t > lim):
                         raise UnicodeEncodeError(enc, "?", 0, 1, "ordinal not in range")
             return core.SymBytes(self.items)
-        raise Unsupported("encode(%s) of a symbolic string" % encoding)
+        # other codecs: only when the path condition already fixes every character
+        cps = [c if isinstance(c, int) else c.concretize(limit=4) for c in self.items]
+        return "".join(chr(c) for c in cps).encode(encoding, errors)
 
     def to_int(self, base=10):
         raise Unsupported("int() of a symbolic string")
